@@ -24,6 +24,8 @@ pub(crate) struct ReFlags {
     language: Language,
     debug: bool,                     // flags = ';g'
     allow_unknown_block_names: bool, // flags = ';k'
+    #[cfg(regexml_verif)]
+    pub(crate) verif_opts: u32,
 }
 
 impl ReFlags {
@@ -37,6 +39,8 @@ impl ReFlags {
             language,
             debug: false,
             allow_unknown_block_names: false,
+            #[cfg(regexml_verif)]
+            verif_opts: 0,
         };
 
         let mut chars = flags.chars();
